@@ -326,3 +326,31 @@ def watcher(ctx, test, wid, out):
       ctx.ev('watcher_done', wid)
       return
     ev.wait()
+
+
+import logging as _logging
+
+
+class SlowHandler(_logging.Handler):
+  """A user log handler that takes virtual time per record (e.g. a remote log sink)."""
+
+  def __init__(self, delay):
+    super(SlowHandler, self).__init__()
+    self.delay = delay
+
+  def emit(self, record):
+    if record.levelno >= _logging.INFO:
+      core.sim_sleep(self.delay)
+
+
+def overlapper(ctx, test, gate, start):
+  """A second thread calling execute() on a Test that may be running."""
+  gate.wait()
+  if getattr(ctx, 'overlap_cancel', False):
+    return
+  ctx.ev('overlap_call')
+  try:
+    ret = test.execute(test_start=start)
+    ctx.ev('overlap_ret', ret)
+  except BaseException as e:  # pylint: disable=broad-except
+    ctx.ev('overlap_exc', type(e).__name__)
